@@ -127,6 +127,18 @@ namespace lang
         {
             str.replace(start_pos, to_replace.length(), replacement);
             start_pos += replacement.length();
+
+            if (to_replace.empty())
+            {
+                // the empty string matches before every character and at the end: step over
+                // the character following the match so that it is not found again in place
+                if (start_pos >= str.size())
+                {
+                    break;
+                }
+
+                ++start_pos;
+            }
         }
     }
 } // namespace lang
